@@ -18,6 +18,19 @@ class HarnessError(Exception):
   pass
 
 
+class NeedSplit(Exception):
+  """A float->int cast or a sort order is not determined by the case assumption: the caller splits the case."""
+
+  def __init__(self, cond, why):
+    Exception.__init__(self, why)
+    self.cond = cond
+    self.why = why
+
+
+class Undefined(Exception):
+  """The real code would fail here (e.g. gather index out of range) for every input of the current case."""
+
+
 class Ctx:
   """Per-query context: stub contracts, side obligations, sign cache."""
 
